@@ -792,7 +792,7 @@ func main() {
 	if a.Thorough() {
 		h.stride = 250
 	}
-	h.wd = vh.NewWatchdog(rep, 20*time.Second)
+	h.wd = vh.NewWatchdog(rep, 180*time.Second)
 	h.cw = vh.NewCases(a, caseHeader, "case", "mismatches", 150)
 
 	verif := os.Getenv("VERIF_DIR")
